@@ -1,10 +1,11 @@
-"""C17 -- remaining class-level refactorings (narrow necessary conditions R17.1-R17.9)."""
+"""C17 -- remaining class-level refactorings (narrow necessary conditions R17.1-R17.10)."""
 from __future__ import annotations
 
 import ast
 
 from ..cfg import CFG
 from ..core import AnalysisError, call_name, calls_in, is_self_attr, norm, walk_local, param_names
+from . import common
 from .c03 import yield_counter_rule
 from .c04 import classifier_table_rule
 from .c19 import matcher_rule
@@ -198,3 +199,6 @@ def check(ctx, res) -> None:
                     f"the position where the setter call is closed is `{ast.unparse(x.value)}`, not the end of the logical line: for a write whose value "
                     "continues over several physical lines the `)` lands after the first line and the module no longer parses", function=gcm.qualname)
     res.floor("R17.8", "places where the pending setter's end is recorded", n8, 1)
+
+    # ---- R17.10 which imports are added is never decided on the module's text lines
+    common.import_presence_rule(ctx, res, "R17.10")
